@@ -210,9 +210,34 @@ pub fn craft(rng: &mut StdRng, c: &Committee, k: &mut Knowledge, correct: &[usiz
                 (false, 2) => vec![(mk(None), a), (mk(Some(validator::Payload(vec![1; crate::world::MAX_PAYLOAD + 1]))), bset)],
                 (false, _) => vec![(mk(Some(payload(rng, "D"))), a), (mk(Some(payload(rng, "E"))), bset.clone()), (mk(Some(payload(rng, "F"))), bset)],
                 (true, 0) => vec![(mk(Some(payload(rng, "R"))), a), (mk(None), bset)],
+                // a forced re-proposal that comes with a payload the replicas have seen (and cached) before for this very block
+                // number - proposed in an earlier view and abandoned; it must be refused like any other payload
+                (true, 1) | (true, 2) | (true, 3) => {
+                    let mut old: Vec<validator::Payload> = vec![];
+                    for ps in k.proposals.values() {
+                        for p in ps {
+                            if let Some(pl) = &p.proposal_payload {
+                                let (n2, _) = p.justification.get_implied_block(&c.schedule, c.genesis.first_block);
+                                if n2 == _num && Some(pl.hash()) != implied {
+                                    old.push(pl.clone());
+                                }
+                            }
+                        }
+                    }
+                    match old.choose(rng) {
+                        Some(x) => vec![(mk(Some(x.clone())), correct.to_vec())],
+                        None => vec![(mk(None), a)],
+                    }
+                }
                 (true, _) => vec![(mk(None), a)],
             };
-            Some(Crafted { what: "byz-proposal", msgs, steer })
+            for (m, _) in &msgs {
+                if let ConsensusMsg::V2(ChonkyMsg::LeaderProposal(p)) = &m.msg {
+                    k.proposals.entry(view).or_default().push(p.clone());
+                }
+            }
+            let what = if implied.is_some() && msgs.iter().any(|(m, _)| matches!(&m.msg, ConsensusMsg::V2(ChonkyMsg::LeaderProposal(p)) if p.proposal_payload.is_some())) { "byz-reproposal-with-payload" } else { "byz-proposal" };
+            Some(Crafted { what, msgs, steer })
         }
         // vote for everything: commit votes for every proposal seen in a recent view (equivocating votes)
         3 | 4 => {
